@@ -54,6 +54,7 @@ type Req struct {
 	Bulk   int        `json:"bulk"`   // this many further entries in the data map that no rule looks at (a big request)
 	Tag    bool       `json:"tag"`    // the request's first rule sets the request's stop tag (before it fails, if it does)
 	Odd    bool       `json:"odd"`    // a request the pool refuses or that targets nothing: no promise about what it runs
+	mine   bool       // set by the driver: the data map carries the request's own closure under the name `mine`
 	// Trigger: this request performs the update from inside rule TrigRule
 	Trigger  *Update `json:"trigger"`
 	TrigRule string  `json:"trigrule"`
@@ -236,6 +237,7 @@ rule "pd" "tag-5" salience 0 begin
 end
 rule "pe" "tag-6" salience -1 begin
   if seeq(req.Id) { peek(req.Id, "loc", loc) }
+  if hasmine(req.Id) { chk(req.Id, mine()) }
   if retq(req.Id) { return req.Id }
 end
 `
@@ -307,6 +309,12 @@ func (d *drv) api() map[string]interface{} {
 		},
 		"chk": func(a, b int64) {
 			d.o.Emit(obs.Event{"ev": "argpair", "a": a, "b": b})
+		},
+		// the request injected a function value of its own under the name `mine` (a closure that returns its id)
+		"hasmine": func(q int64) bool {
+			d.mu.Lock()
+			defer d.mu.Unlock()
+			return d.reqs[q] != nil && d.reqs[q].mine
 		},
 		"retq": func(q int64) bool {
 			d.mu.Lock()
@@ -505,6 +513,14 @@ func (d *drv) request(r *Req, cv bool) {
 	st := &engine.Stag{}
 	if r.Tag {
 		data["stag"] = st
+	}
+	if !r.NoData && r.Via != "em" && r.Via != "emresp" {
+		// every request injects a function value of its own under one and the same name
+		q := r.Q
+		data["mine"] = func() int64 { return q }
+		d.mu.Lock()
+		r.mine = true
+		d.mu.Unlock()
 	}
 	c := &dispatch.Call{Method: r.Method, Via: r.Via, B: r.B, N: r.N, M: r.M, Names: r.Names, Dag: r.Dag}
 	if c.Via == "" {
